@@ -2,6 +2,7 @@ package main
 
 import (
 	"fmt"
+	"go/constant"
 	"go/token"
 	"go/types"
 	"strings"
@@ -171,15 +172,37 @@ func (c *Check) goroutineRules(prop, rel string, fns []string) {
 			c.undecided(prop+"-R1", "go:"+name, p.relFile(f.Pos()), name+" starts no goroutine")
 			continue
 		}
-		if len(adds) != 1 || len(waits) != 1 {
+		if len(adds) == 0 || len(waits) != 1 {
 			c.undecided(prop+"-R1", "wg:"+name, p.relFile(f.Pos()), fmt.Sprintf("%s has %d wg.Add and %d wg.Wait calls; the rule expects one barrier", name, len(adds), len(waits)))
 			continue
 		}
-		add, wait := adds[0], waits[0]
-		wg := add.Call.Args[0]
+		wait := waits[0]
+		wg := wait.Call.Args[0]
+		sameWG := true
+		for _, a := range adds {
+			if a.Call.Args[0] != wg {
+				sameWG = false
+			}
+		}
+		if !sameWG {
+			c.undecided(prop+"-R1", "wg:"+name, p.relFile(f.Pos()), name+" uses more than one WaitGroup; the rule expects one barrier")
+			continue
+		}
+		// Two accepted accounting forms (R2): one Add(k) before all launches, or one Add(1) paired
+		// with each go statement (the k-th Add with the k-th go statement in source order).
+		perLaunch := len(adds) > 1 || isConstInt(adds[0].Call.Args[1], 1) && loopDepth(adds[0].Block()) > 0
+		addFor := func(i int) *ssa.Call {
+			if !perLaunch {
+				return adds[0]
+			}
+			if i < len(adds) {
+				return adds[i]
+			}
+			return nil
+		}
 		// --- R1: Add precedes every launch; each body defers Done on the same wg
 		inLoop := false
-		for _, g := range gos {
+		for i, g := range gos {
 			key := fmt.Sprintf("go:%s@%s", name, closureName(g))
 			cl := goClosure(g)
 			if cl == nil {
@@ -189,7 +212,7 @@ func (c *Check) goroutineRules(prop, rel string, fns []string) {
 			if loopDepth(g.Block()) > 0 {
 				inLoop = true
 			}
-			if !instrDominates(add, g) {
+			if add := addFor(i); add == nil || !instrDominates(add, g) {
 				c.bad(prop+"-R1", key, p.relFile(g.Pos()), "goroutine is started before wg.Add")
 				continue
 			}
@@ -205,28 +228,49 @@ func (c *Check) goroutineRules(prop, rel string, fns []string) {
 		}
 		// --- R2: Add count equals the number of launches
 		key := "count:" + name
-		n := add.Call.Args[1]
 		switch {
-		case !inLoop:
-			if k, ok := n.(*ssa.Const); ok && int(k.Int64()) == len(gos) {
-				c.ok(prop+"-R2", key, p.relFile(add.Pos()), fmt.Sprintf("wg.Add(%d) matches %d go statements in %s", k.Int64(), len(gos), name), "constant count equals the number of launches")
+		case perLaunch:
+			why := ""
+			if len(adds) != len(gos) {
+				why = fmt.Sprintf("%d wg.Add calls for %d go statements", len(adds), len(gos))
+			}
+			for i := 0; why == "" && i < len(gos); i++ {
+				a, g := adds[i], gos[i]
+				switch {
+				case !isConstInt(a.Call.Args[1], 1):
+					why = "a per-launch wg.Add whose argument is not 1"
+				case !instrDominates(a, g):
+					why = "a wg.Add(1) that does not precede its go statement"
+				case a.Block() != g.Block() && (blockReachesAvoid(a.Block(), wait.Block(), g.Block()) || blockReachesAvoid(a.Block(), a.Block(), g.Block())):
+					why = "a wg.Add(1) after which the go statement can be skipped"
+				case a.Block() != g.Block() && blockReachesAvoid(g.Block(), g.Block(), a.Block()):
+					why = "a go statement that can run more than once per wg.Add(1)"
+				}
+			}
+			if why == "" {
+				c.ok(prop+"-R2", key, p.relFile(adds[0].Pos()), fmt.Sprintf("each of the %d go statements in %s is preceded by its own wg.Add(1)", len(gos), name), "k-th Add(1) dominates the k-th go statement, which cannot be skipped or repeated between that Add and the next one or the Wait")
 			} else {
-				c.bad(prop+"-R2", key, p.relFile(add.Pos()), fmt.Sprintf("wg.Add argument %s does not equal the %d goroutines started in %s", describeValue(n), len(gos), name))
+				c.bad(prop+"-R2", key, p.relFile(adds[0].Pos()), name+" has "+why+": the barrier's count would not equal the number of goroutines")
+			}
+		case !inLoop:
+			n := adds[0].Call.Args[1]
+			if k, ok := n.(*ssa.Const); ok && int(k.Int64()) == len(gos) {
+				c.ok(prop+"-R2", key, p.relFile(adds[0].Pos()), fmt.Sprintf("wg.Add(%d) matches %d go statements in %s", k.Int64(), len(gos), name), "constant count equals the number of launches")
+			} else {
+				c.bad(prop+"-R2", key, p.relFile(adds[0].Pos()), fmt.Sprintf("wg.Add argument %s does not equal the %d goroutines started in %s", describeValue(n), len(gos), name))
 			}
 		default:
-			// one go statement inside `for i := range xs`: Add(len(xs)) over the same xs
+			// one go statement inside a forward loop over xs: Add(len(xs)) over the same xs
 			okCount := false
-			if lc, ok := n.(*ssa.Call); ok {
-				if b, ok := lc.Call.Value.(*ssa.Builtin); ok && b.Name() == "len" && len(gos) == 1 {
-					if bound := loopBoundOf(gos[0].Block()); bound != nil && bound == lc.Call.Args[0] {
-						okCount = true
-					}
+			if xs := lenSlice(adds[0].Call.Args[1]); xs != nil && len(gos) == 1 && loopDepth(adds[0].Block()) == 0 {
+				if bound := loopBoundOf(gos[0].Block()); bound != nil && bound == xs {
+					okCount = true
 				}
 			}
 			if okCount {
-				c.ok(prop+"-R2", key, p.relFile(add.Pos()), "wg.Add(len(sources)) matches one goroutine per element in "+name, "the go statement sits in a range loop over the same slice whose length is added")
+				c.ok(prop+"-R2", key, p.relFile(adds[0].Pos()), "wg.Add(len(sources)) matches one goroutine per element in "+name, "the go statement sits in a forward loop over the same slice whose length is added")
 			} else {
-				c.bad(prop+"-R2", key, p.relFile(add.Pos()), "wg.Add count in "+name+" is not the length of the slice whose range loop starts the goroutines")
+				c.bad(prop+"-R2", key, p.relFile(adds[0].Pos()), "wg.Add count in "+name+" is not the length of the slice whose loop starts the goroutines")
 			}
 		}
 		// --- R3: slots
@@ -237,6 +281,7 @@ func (c *Check) goroutineRules(prop, rel string, fns []string) {
 				continue
 			}
 			key := fmt.Sprintf("slot:%s@%s", name, closureName(g))
+			gInLoop := loopDepth(g.Block()) > 0
 			bad := ""
 			nw := 0
 			for _, b := range cl.Blocks {
@@ -249,12 +294,26 @@ func (c *Check) goroutineRules(prop, rel string, fns []string) {
 					switch rk {
 					case rFresh:
 					case rFreeVar:
-						cell, _ := resolveCell(st.Addr)
-						if cell == nil {
+						base, loads := addrBase(st.Addr)
+						cell, owner := resolveCell(base)
+						switch {
+						case cell == nil || owner != f:
 							bad = "writes through a captured pointer that is not a simple variable"
-						} else {
-							written[cell] = append(written[cell], cl)
-							nw++
+						case loads == 0:
+							// the captured variable itself (or one of its fields)
+							if gInLoop && !perIteration(cell, g) {
+								bad = "a goroutine started in a loop writes the shared variable " + cell.Comment
+							} else {
+								written[cell] = append(written[cell], cl)
+								nw++
+							}
+						default:
+							// through a captured pointer: it must be this iteration's own &xs[i]
+							if gInLoop && perIteration(cell, g) && holdsOwnSlot(cell, f) {
+								nw++
+							} else {
+								bad = "writes through the captured pointer " + cell.Comment + ", which is not this iteration's own &sources[i]"
+							}
 						}
 					case rParam:
 						nw++ // through its own argument; checked at the launch below
@@ -263,27 +322,16 @@ func (c *Check) goroutineRules(prop, rel string, fns []string) {
 					}
 				}
 			}
-			if loopDepth(g.Block()) > 0 {
-				// the argument must be &xs[i] with i the loop index, and no captured variable may be written
-				okArg := len(g.Call.Args) > 0
+			if gInLoop {
+				// a pointer argument must be &xs[i] with i the loop index
 				for _, a := range g.Call.Args {
-					if ia, ok := a.(*ssa.IndexAddr); ok {
-						if !rangeIndex(ia.Index) {
-							okArg = false
-						}
-					} else if _, isPtr := a.Type().Underlying().(interface{ Elem() interface{} }); isPtr {
-						okArg = false
+					if _, isPtr := a.Type().Underlying().(*types.Pointer); !isPtr {
+						continue
 					}
-				}
-				for cell, fns := range written {
-					for _, fn := range fns {
-						if fn == cl {
-							bad = "a goroutine started in a loop writes the shared variable " + cell.Comment
-						}
+					ia, ok := a.(*ssa.IndexAddr)
+					if !ok || !isForwardIndex(ia.Index) {
+						bad = "the goroutine's argument is not &sources[i] for the loop index i"
 					}
-				}
-				if !okArg {
-					bad = "the goroutine's argument is not &sources[i] for the loop index i"
 				}
 			}
 			if bad != "" {
@@ -307,16 +355,22 @@ func (c *Check) goroutineRules(prop, rel string, fns []string) {
 					continue
 				}
 				shared := false
-				if al, ok := ld.X.(*ssa.Alloc); ok {
+				addr := ld.X
+				for {
+					fa, ok := addr.(*ssa.FieldAddr)
+					if !ok {
+						break
+					}
+					addr = fa.X
+				}
+				if al, ok := addr.(*ssa.Alloc); ok {
 					if _, w := written[al]; w {
 						shared = true
 					}
 				}
-				if fa, ok := ld.X.(*ssa.FieldAddr); ok && inLoop {
-					if ia, ok := fa.X.(*ssa.IndexAddr); ok {
-						if _, isParam := ia.X.(*ssa.Parameter); isParam {
-							shared = true
-						}
+				if ia, ok := addr.(*ssa.IndexAddr); ok && inLoop {
+					if _, isParam := ia.X.(*ssa.Parameter); isParam {
+						shared = true
 					}
 				}
 				if !shared {
@@ -337,6 +391,117 @@ func (c *Check) goroutineRules(prop, rel string, fns []string) {
 		}
 	}
 	c.Floor(prop+"-R1", 3)
+}
+
+func isConstInt(v ssa.Value, n int64) bool {
+	k, ok := v.(*ssa.Const)
+	return ok && k.Value != nil && k.Value.Kind() == constant.Int && k.Int64() == n
+}
+
+// lenSlice: v is len(xs); returns xs.
+func lenSlice(v ssa.Value) ssa.Value {
+	if lc, ok := v.(*ssa.Call); ok {
+		if bi, ok := lc.Call.Value.(*ssa.Builtin); ok && bi.Name() == "len" {
+			return lc.Call.Args[0]
+		}
+	}
+	return nil
+}
+
+// addrBase strips field/element selections and pointer loads from an address and
+// reports how many loads were crossed.
+func addrBase(a ssa.Value) (ssa.Value, int) {
+	loads := 0
+	for {
+		switch x := a.(type) {
+		case *ssa.FieldAddr:
+			a = x.X
+		case *ssa.IndexAddr:
+			a = x.X
+		case *ssa.UnOp:
+			if x.Op != token.MUL {
+				return a, loads
+			}
+			loads++
+			a = x.X
+		default:
+			return a, loads
+		}
+	}
+}
+
+// perIteration: the variable is declared inside the loop body that contains the go
+// statement g (a new cell on every iteration) and before it.
+func perIteration(cell *ssa.Alloc, g *ssa.Go) bool {
+	return cell.Block() != nil && loopDepth(cell.Block()) > 0 && instrDominates(cell, g) && !blockReachesAvoid(g.Block(), g.Block(), cell.Block())
+}
+
+// holdsOwnSlot: the only value ever stored in the variable is &xs[i] for the index i
+// of a forward loop.
+func holdsOwnSlot(cell *ssa.Alloc, f *ssa.Function) bool {
+	n := 0
+	ok := true
+	forEachFuncAndAnon(f, func(fn *ssa.Function) {
+		for _, b := range fn.Blocks {
+			for _, ins := range b.Instrs {
+				st, isSt := ins.(*ssa.Store)
+				if !isSt {
+					continue
+				}
+				if a, _ := resolveCell(st.Addr); a != cell {
+					continue
+				}
+				n++
+				ia, isIA := st.Val.(*ssa.IndexAddr)
+				if !isIA || fn != f || !isForwardIndex(ia.Index) {
+					ok = false
+				}
+			}
+		}
+	})
+	return ok && n == 1
+}
+
+// forwardIndex: v is the index of a loop that visits 0, 1, 2, … in ascending order
+// (`for i := range xs` or `for i := 0; i < n; i++`); the result is the bound it is
+// compared with in the loop header.
+func forwardIndex(v ssa.Value) (ssa.Value, bool) {
+	var counter ssa.Value
+	if rangeIndex(v) {
+		counter = v
+	} else if phi, ok := v.(*ssa.Phi); ok && len(phi.Edges) == 2 {
+		zero, step := 0, 0
+		for _, e := range phi.Edges {
+			if isConstInt(e, 0) {
+				zero++
+			} else if add, ok := e.(*ssa.BinOp); ok && add.Op == token.ADD && add.X == phi && isConstInt(add.Y, 1) {
+				step++
+			}
+		}
+		if zero == 1 && step == 1 {
+			counter = phi
+		}
+	}
+	if counter == nil {
+		return nil, false
+	}
+	for _, r := range *counter.Referrers() {
+		cmp, ok := r.(*ssa.BinOp)
+		if !ok || cmp.Op != token.LSS || cmp.X != counter {
+			continue
+		}
+		for _, rr := range *cmp.Referrers() {
+			if _, isIf := rr.(*ssa.If); isIf && blockReachesPlain(rr.Block(), rr.Block()) {
+				return cmp.Y, true
+			}
+		}
+	}
+	return nil, false
+}
+
+func isForwardIndex(v ssa.Value) bool {
+	_, ok := forwardIndex(v)
+	return ok
 }
 
 func dedupFns(fns []*ssa.Function) []*ssa.Function {
@@ -445,9 +610,9 @@ func loopDepth(b *ssa.BasicBlock) int {
 	return 0
 }
 
-// loopBoundOf: for a block inside `for i := range xs`, the slice xs whose length bounds the loop.
+// loopBoundOf: for a block inside a forward loop over xs (`for i := range xs`, or
+// `for i := 0; i < len(xs); i++` with the length possibly hoisted), the slice xs.
 func loopBoundOf(b *ssa.BasicBlock) ssa.Value {
-	// find an enclosing header `if idx < len(xs)` with idx a range index
 	for _, blk := range b.Parent().Blocks {
 		if len(blk.Instrs) == 0 {
 			continue
@@ -457,16 +622,18 @@ func loopBoundOf(b *ssa.BasicBlock) ssa.Value {
 			continue
 		}
 		cmp, ok := iff.Cond.(*ssa.BinOp)
-		if !ok || cmp.Op != token.LSS || !rangeIndex(cmp.X) {
+		if !ok || cmp.Op != token.LSS {
+			continue
+		}
+		bound, ok := forwardIndex(cmp.X)
+		if !ok || bound != cmp.Y {
 			continue
 		}
 		if !blockReachesPlain(blk, b) || !blockReachesPlain(b, blk) {
 			continue
 		}
-		if lc, ok := cmp.Y.(*ssa.Call); ok {
-			if bi, ok := lc.Call.Value.(*ssa.Builtin); ok && bi.Name() == "len" {
-				return lc.Call.Args[0]
-			}
+		if xs := lenSlice(cmp.Y); xs != nil {
+			return xs
 		}
 	}
 	return nil
@@ -495,24 +662,53 @@ func (c *Check) collectRules() {
 			if len(elems) != 1 {
 				continue
 			}
-			ld, ok := elems[0].(*ssa.UnOp)
-			if !ok {
-				continue
+			// sources[i].F read in place (s := &sources[i]; s.F) or from a snapshot (got := sources[i]; got.F)
+			var elemAddr ssa.Value
+			var T, F string
+			switch x := elems[0].(type) {
+			case *ssa.UnOp:
+				if fa, ok := x.X.(*ssa.FieldAddr); ok && x.Op == token.MUL {
+					T, F = fieldOf(fa.X.Type(), fa.Field)
+					elemAddr = fa.X
+				}
+			case *ssa.Field:
+				T, F = fieldOf(x.X.Type(), x.Field)
+				if ld, ok := x.X.(*ssa.UnOp); ok && ld.Op == token.MUL {
+					elemAddr = ld.X
+				}
 			}
-			fa, ok := ld.X.(*ssa.FieldAddr)
-			if !ok {
-				continue
-			}
-			T, F := fieldOf(fa.X.Type(), fa.Field)
 			if T != "driver.profileSource" {
 				continue
 			}
+			if al, ok := elemAddr.(*ssa.Alloc); ok {
+				// a local copy: its only assignment is `got := sources[i]`, before the append
+				elemAddr = nil
+				n := 0
+				for _, b2 := range cg.Blocks {
+					for _, ins2 := range b2.Instrs {
+						st, ok := ins2.(*ssa.Store)
+						if !ok {
+							continue
+						}
+						if base, _ := addrBase(st.Addr); base != ssa.Value(al) {
+							continue
+						}
+						n++
+						if ld, ok := st.Val.(*ssa.UnOp); ok && ld.Op == token.MUL && st.Addr == ssa.Value(al) && instrDominates(st, call) {
+							elemAddr = ld.X
+						}
+					}
+				}
+				if n != 1 {
+					elemAddr = nil
+				}
+			}
 			nApp++
 			key := "order:" + F
-			ia, ok := fa.X.(*ssa.IndexAddr)
-			if ok && rangeIndex(ia.Index) {
+			ia, ok := elemAddr.(*ssa.IndexAddr)
+			if ok && isForwardIndex(ia.Index) {
 				if _, isParam := ia.X.(*ssa.Parameter); isParam {
-					c.ok("C16-R4", key, p.relFile(call.Pos()), "fetched "+F+" values are collected in command-line order", "append of sources[i]."+F+" for the index of a forward range loop over the sources")
+					c.ok("C16-R4", key, p.relFile(call.Pos()), "fetched "+F+" values are collected in command-line order", "append of sources[i]."+F+" for the index of a forward loop over the sources")
 					continue
 				}
 			}
@@ -574,31 +770,84 @@ func (c *Check) collectRules() {
 	// 'no profile' decided from counts in grabSourcesAndBases
 	gsb := c.anchorFn("C16-R5", "internal/driver", "grabSourcesAndBases")
 	if gsb != nil {
-		for _, want := range []string{"countsrc", "countbase"} {
+		// the count each goroutine receives from chunkedGrab (its int result) is compared with 0 in the parent
+		type slot struct {
+			cell *ssa.Alloc
+			path string
+			pos  token.Pos
+		}
+		var slots []slot
+		for _, an := range gsb.AnonFuncs {
+			for _, b := range an.Blocks {
+				for _, ins := range b.Instrs {
+					st, ok := ins.(*ssa.Store)
+					if !ok {
+						continue
+					}
+					ex, ok := st.Val.(*ssa.Extract)
+					if !ok || !isIntType(ex.Type()) {
+						continue
+					}
+					call, ok := ex.Tuple.(*ssa.Call)
+					if !ok || call.Call.StaticCallee() == nil || call.Call.StaticCallee().Name() != "chunkedGrab" {
+						continue
+					}
+					base, loads := addrBase(st.Addr)
+					if cell, _ := resolveCell(base); cell != nil && loads == 0 {
+						slots = append(slots, slot{cell, fieldPath(st.Addr), st.Pos()})
+					}
+				}
+			}
+		}
+		if len(slots) < 2 {
+			c.undecided("C16-R5", "count", p.relFile(gsb.Pos()), fmt.Sprintf("found %d variables receiving chunkedGrab's count in grabSourcesAndBases's goroutines (expected one for the sources and one for the bases)", len(slots)))
+		}
+		for i, sl := range slots {
 			found := false
 			for _, b := range gsb.Blocks {
 				for _, ins := range b.Instrs {
-					if cmp, ok := ins.(*ssa.BinOp); ok && cmp.Op == token.EQL {
-						if ld, ok := cmp.X.(*ssa.UnOp); ok {
-							if al, ok := ld.X.(*ssa.Alloc); ok && al.Comment == want {
-								if k, ok := cmp.Y.(*ssa.Const); ok && k.Int64() == 0 {
-									found = true
-								}
-							}
+					cmp, ok := ins.(*ssa.BinOp)
+					if !ok || cmp.Op != token.EQL || !isConstInt(cmp.Y, 0) {
+						continue
+					}
+					if ld, ok := cmp.X.(*ssa.UnOp); ok && ld.Op == token.MUL {
+						base, loads := addrBase(ld.X)
+						if base == ssa.Value(sl.cell) && loads == 0 && fieldPath(ld.X) == sl.path {
+							found = true
 						}
 					}
 				}
 			}
+			key := fmt.Sprintf("count:group%d", i)
+			what := sl.cell.Comment + sl.path
 			if found {
-				c.ok("C16-R5", "count:"+want, p.relFile(gsb.Pos()), "failure of a whole group is decided from "+want+" == 0", "comparison present")
+				c.ok("C16-R5", key, p.relFile(gsb.Pos()), "failure of a whole group is decided from "+what+" == 0", "the count a goroutine stores from chunkedGrab is compared with zero after the barrier")
 			} else {
-				c.bad("C16-R5", "count:"+want, p.relFile(gsb.Pos()), "grabSourcesAndBases no longer tests "+want+" == 0")
+				c.bad("C16-R5", key, p.relFile(sl.pos), "grabSourcesAndBases no longer tests "+what+" == 0")
 			}
 		}
 	}
 }
 
-// chunkTiling (R6)
+func isIntType(t types.Type) bool {
+	b, ok := t.Underlying().(*types.Basic)
+	return ok && b.Kind() == types.Int
+}
+
+// fieldPath: the field selections of an address, e.g. ".count".
+func fieldPath(a ssa.Value) string {
+	path := ""
+	for {
+		fa, ok := a.(*ssa.FieldAddr)
+		if !ok {
+			return path
+		}
+		_, f := fieldOf(fa.X.Type(), fa.Field)
+		path = "." + f + path
+		a = fa.X
+	}
+}
+
 func (c *Check) chunkTiling() {
 	p := c.P
 	f := c.anchorFn("C16-R6", "internal/driver", "chunkedGrab")
